@@ -9,6 +9,13 @@ impl Errno {
     pub const XDEV: Errno = Errno(18);
     pub const NOSYS: Errno = Errno(38);
     pub const OPNOTSUPP: Errno = Errno(95);
+    pub const IO: Errno = Errno(5);
+    pub const AGAIN: Errno = Errno(11);
+    pub const ACCESS: Errno = Errno(13);
+    pub const BUSY: Errno = Errno(16);
+    pub const INVAL: Errno = Errno(22);
+    pub const NOSPC: Errno = Errno(28);
+    pub const INTR: Errno = Errno(4);
 }
 
 #[derive(PartialEq, Eq, Clone, Copy, Structural)]
@@ -40,6 +47,15 @@ pub mod libc {
     pub const EINVAL: i32 = 22;
     pub const EXDEV: i32 = 18;
     pub const ETXTBSY: i32 = 26;
+    // not used by the pinned code; present so that a changed errno list still type-checks (values checked by the conformance build)
+    pub const EPERM: i32 = 1;
+    pub const EIO: i32 = 5;
+    pub const EAGAIN: i32 = 11;
+    pub const EACCES: i32 = 13;
+    pub const EBUSY: i32 = 16;
+    pub const ENOSPC: i32 = 28;
+    pub const ENOSYS: i32 = 38;
+    pub const ENOTSUP: i32 = 95;
 
     /// K-ficlone.  Only the FICLONE form `ioctl(dst, FICLONE, src)` is modelled (the FIEMAP call sits in the
     /// trusted `fiemap`).  Success gives the destination the source's content; failure changes nothing and sets errno.
